@@ -128,13 +128,5 @@ func UnmarshalCBOR[T any](data []byte) (T, error) {
 	if err != nil {
 		return t, errs.Wrap(err).WithMessage("deserialisation error")
 	}
-	// A CBOR null decodes into a nil pointer without error. Callers decode into pointer DTOs and dereference the
-	// result, so a nil result is reported as a deserialisation error instead of being handed back.
-	if rv := reflect.ValueOf(&t).Elem(); rv.Kind() == reflect.Pointer && rv.IsNil() {
-		return t, ErrNilResult.WithMessage("deserialisation error: null decodes to a nil pointer")
-	}
 	return t, nil
 }
-
-// ErrNilResult is returned when the input decodes to a nil pointer (CBOR null).
-var ErrNilResult = errs.New("nil result")
